@@ -31,6 +31,10 @@ def section_events(g):
             ev.append(n)
         elif n.kind == "enter" and n["fname"] in ("_load_from_resource", "_load_from_buffer", "_save_to_resource", "_save_to_buffer") and recv_is_root_T(n):
             ev.append(n)
+        elif n.kind == "count" and n["counter"] == ("T", "_suspend_sync"):
+            # the suspend counter is shared by the whole tree and by all threads: while it is
+            # raised every other thread's load and save are skipped
+            ev.append(n)
     return ev
 
 
